@@ -220,7 +220,7 @@ def shard(job) -> dict:
     frame_sizes, lo, hi = job
     DR.ensure_rdflib_plugin()
     acc = pool.Acc()
-    for api, entry, cls, lt, dl, fs, flow, inp, reuse in all_points(frame_sizes)[lo:hi]:
+    for api, entry, cls, lt, dl, fs, flow, inp, reuse in all_points(frame_sizes)[lo::hi]:
         case = {"api": api, "entry": entry, "cls": cls, "logical": lt, "delimited": dl,
                 "frame_size": fs, "flow": flow, "input": inp, "reuse": reuse}
         acc.evals += 1
@@ -246,8 +246,7 @@ def shard(job) -> dict:
 def run(ctx) -> None:
     frame_sizes = (1, 2, 250) if ctx.quick else (1, 2, 3, 250)
     n = len(all_points(frame_sizes))
-    merged = pool.merge(pool.pmap(shard, [(frame_sizes, lo, hi)
-                                          for lo, hi in pool.split_range(n, 64)]))
+    merged = pool.merge(pool.pmap(shard, [(frame_sizes, i, 64) for i in range(64)]))  # strided
     ctx.add(merged)
     if merged["evals"] != n:
         from mc.env import HarnessError  # noqa: PLC0415
